@@ -72,11 +72,17 @@ void remove_duplicate_include()
                   Chunk::Delete(temp);
                   Chunk::Delete(next);
 
-                  if (comment != eol)
+                  if (  comment != eol
+                     && comment->IsNotNullChunk())
                   {
                      Chunk::Delete(comment);
                   }
-                  Chunk::Delete(eol);
+
+                  // the last line of a file need not end in a newline
+                  if (eol->IsNotNullChunk())
+                  {
+                     Chunk::Delete(eol);
+                  }
                   break;
                }
                else
